@@ -367,17 +367,17 @@ def gen(rng, tier):
     for kind, limit in kinds:
         for n in range(1, depth + 1):
             for word in itertools.product(range(len(ALPHA)), repeat=n):
-                if n == depth and rng.random() > (0.12 if tier == "quick" else 0.25):
+                if n == depth and rng.random() > (0.05 if tier == "quick" else 0.25):
                     continue
                 cases.append({"kind": kind, "limit": limit, "ops": [ALPHA[a] for a in word]})
-    for _ in range(500 if tier == "quick" else 20000):
+    for _ in range(300 if tier == "quick" else 6000):
         kind, limit = rng.choice(kinds + [("sem", 5)])
         cases.append({"kind": kind, "limit": limit, "ops": _random_history(rng, rng.randrange(6, 50))})
     # bursts: a holder, then many run() calls queue up behind it, then the holder releases (the whole queue is
     # served from inside that one release() call)
-    for _ in range(12 if tier == "quick" else 200):
+    for b in range(8 if tier == "quick" else 60):
         kind, limit = rng.choice(kinds)
-        n = rng.choice([3, 10, 30, 50, 100, 200, 400])
+        n = rng.choice([3, 10, 30, 50]) if b % 4 else [250, 100, 400][(b // 4) % 3]
         ops = [["acq"] for _ in range(limit)]
         ops += [["run", ["ret", k] if rng.random() < 0.8 else ["raise"]] for k in range(n)]
         ops += [["rel", 0]]
@@ -387,6 +387,8 @@ def gen(rng, tier):
 
 def corpus():
     return [
+        # known finding run-cascade-recursion-limit: 200 synchronous run() calls queued behind one holder
+        {"kind": "lock", "limit": 1, "ops": [["acq"]] + [["run", ["ret", k]] for k in range(200)] + [["rel", 0]]},
         {"kind": "lock", "limit": 1, "ops": [["acq"], ["run", ["ret", 1]], ["acqthen", [["relself"]]], ["run", ["defer"]],
                                               ["cancel", 1], ["rel", 0], ["fire", 3, True, 9]]},
         {"kind": "sem", "limit": 2, "ops": [["run", ["defer"]], ["run", ["defer"]], ["run", ["ret", 4]], ["acq"],
@@ -474,7 +476,7 @@ SPEC = Spec(
     model_equal=model_equal,
     nontrivial=lambda c, o: sum(1 for t in ("W", "C", "R", "L") if t in o) >= 2,
     histogram=histogram,
-    rule="every history of length <= 3 (quick; length 3 sampled 12%) / <= 4 (thorough; length 4 sampled 25%) over a "
+    rule="every history of length <= 3 (quick; length 3 sampled 5%) / <= 4 (thorough; length 4 sampled 25%) over a "
          "15-letter alphabet (acquire, run with returning/raising/Deferred-returning function, release by holder "
          "0-2, cancel 0-2, fire 0-2, acquire-then-release-in-callback, run whose function re-enters the primitive) "
          "for DeferredLock and DeferredSemaphore(1..3); random histories of 6-50 ops (limits up to 5) in which 30% "
